@@ -339,6 +339,18 @@ def py_mod(a, b):
 
 def binop(ip, op, a, b, node):
     a, b = resolve(ip, a), resolve(ip, b)
+    if ip.mode == 'spec':
+        # specification expressions are total: an operation on the value of an absent optional (`some(x)` where x is
+        # None on this path - always under a guard that excludes the case) denotes an unspecified value of the other
+        # operand's kind instead of raising
+        na = isinstance(a, VConst) and a.py is None
+        nb = isinstance(b, VConst) and b.py is None
+        if na != nb:
+            other = b if na else a
+            try:
+                return kind_of(other).fresh(ip, 'undef')
+            except TypeError:
+                pass
     if isinstance(a, VConst) and isinstance(b, VConst):
         return const_binop(ip, op, a.py, b.py, node)
     if is_intlike(a) and is_intlike(b):
@@ -367,7 +379,10 @@ def binop(ip, op, a, b, node):
     if isinstance(a, (VBytes,)) or isinstance(b, VBytes) or \
             (isinstance(a, VConst) and isinstance(a.py, bytes)) or (isinstance(b, VConst) and isinstance(b.py, bytes)):
         if isinstance(op, ast.Add):
-            ta, tb = KBytes.unwrap(a), KBytes.unwrap(b)
+            try:
+                ta, tb = KBytes.unwrap(a), KBytes.unwrap(b)
+            except TypeError:
+                raise PyRaise(VExc('TypeError'), node)       # bytes + None, bytes + int, ...
             r = z3.Concat(ta, tb)
             ip.assume(seq_len(r) == seq_len(ta) + seq_len(tb))
             return VBytes(r)
@@ -3041,7 +3056,11 @@ def spec_call(ip, e, fr):
             return KBool.wrap(q(vars_, body, patterns=[z3.MultiPattern(*pats) if len(pats) > 1 else pats[0]]))
         return KBool.wrap(q(vars_, body))
     if name == 'implies':
-        return KBool.wrap(z3.Implies(bt(e.args[0]), bt(e.args[1])))
+        a = bt(e.args[0])
+        sa = z3.simplify(a) if not isinstance(a, bool) else z3.BoolVal(a)
+        if z3.is_false(sa):
+            return VConst(True)          # the consequent may be ill-typed on this path (e.g. some(x)[0] with x None)
+        return KBool.wrap(z3.Implies(a, bt(e.args[1])))
     if name == 'iff':
         return KBool.wrap(bt(e.args[0]) == bt(e.args[1]))
     if name == 'ite':
